@@ -503,7 +503,7 @@ theorem visitMem_encode {base sbase : Nat} {stab : List UInt8} {ts : List Tag} (
       have e1 : (p + (8 + ents.length * esz)) % 2^64 = p + 8 + ents.length * esz := by omega
       have e2 : (p + 8) % 2^64 = p + 8 := by omega
       rw [e1, e2]
-      have hfuel : ents.length < (mkMem base sbase stab ts).blk.length + 1 := by
+      have hfuel : ents.length < (mkMem base sbase stab ts).blk.length + 1 + stop := by
         have : ents.length ≤ ents.length * esz := Nat.le_mul_of_pos_right _ (by omega)
         have := length_encode ts
         simp only [mkMem]; omega
